@@ -1511,7 +1511,7 @@ def balance_stoichiometry(
                 raise ValueError("Component '%s' not among products" % ck)
 
     A = MutableDenseMatrix([[_get(ck, sk) for sk in subst_keys] for ck in cks])
-    A = nsimplify(A)
+    A = A.applyfunc(nsimplify)  # (nsimplify(Matrix) leaves Float entries untouched)
     symbs = list(reversed([next(parametric_symbols) for _ in range(len(subst_keys))]))
     (sol,) = linsolve((A, zeros(len(cks), 1)), symbs)
     try:
